@@ -142,7 +142,7 @@ type Frame struct {
 	env       map[string]TV // params by contract name
 	binds     []Value
 	top       bool
-	defers    []*ssa.Defer
+	deferred  []*ssa.Defer
 }
 
 func newFnExec(e *Engine, c *Contract, fn *ssa.Function) *FnExec {
@@ -153,6 +153,27 @@ func newFnExec(e *Engine, c *Contract, fn *ssa.Function) *FnExec {
 }
 
 // ---------- CFG helpers ----------
+
+func blockReaches(a, b *ssa.BasicBlock) bool {
+	seen := map[*ssa.BasicBlock]bool{}
+	var dfs func(x *ssa.BasicBlock) bool
+	dfs = func(x *ssa.BasicBlock) bool {
+		if x == b {
+			return true
+		}
+		if seen[x] {
+			return false
+		}
+		seen[x] = true
+		for _, s := range x.Succs {
+			if dfs(s) {
+				return true
+			}
+		}
+		return false
+	}
+	return dfs(a)
+}
 
 func (fr *Frame) analyse() {
 	fn := fr.fn
@@ -926,8 +947,30 @@ func (x *FnExec) execInstr(fr *Frame, in ssa.Instruction, st *State, g *Term) *T
 		if x.isNoEffectCall(&v.Call) {
 			break
 		}
-		unsupp("defer of %s", v.Call.Value.Name())
+		dup := false
+		for _, d := range fr.deferred {
+			if d == v {
+				dup = true
+			}
+		}
+		if !dup {
+			fr.deferred = append(fr.deferred, v)
+		}
 	case *ssa.RunDefers:
+		// deferred calls run LIFO. A defer whose block dominates this exit has run on every path reaching it;
+		// one that cannot reach this exit has not run; anything else is outside the subset.
+		for i := len(fr.deferred) - 1; i >= 0; i-- {
+			d := fr.deferred[i]
+			if d.Block().Dominates(in.Block()) {
+				_, g2 := x.call(fr, &d.Call, nil, st, g)
+				g = g2
+				continue
+			}
+			if blockReaches(d.Block(), in.Block()) {
+				unsupp("conditionally executed defer of %s", d.Call.Value.Name())
+			}
+		}
+		return g
 	case *ssa.If, *ssa.Jump:
 	case *ssa.Return:
 		var rv Value
